@@ -319,12 +319,14 @@ class ModeSys(HSystem):
 
     def canon(self, o):
         from mc.engine import canon
-        return (canon(o['o']), canon(o.get('o2')))
+        return (canon(o['o']), canon(o.get('o2')), o['iv'])
 
     def events(self, o):
         ev = [('enc', i) for i in range(3)] + [('dec', i) for i in range(3)] + [('dec-of-own-enc', 0), ('enc-of-own-enc', 1)]
         if self.mode == 'CTR':
             ev += [('enc2', 0), ('dec2', 2), ('enc2', 2)]
+        if self.mode == 'CBC':
+            ev += [('set-iv', 0), ('set-iv', 1)]
         if self.cid.startswith('failing'):
             ev += [('failing-enc', 1), ('failing-enc', 2), ('failing-dec', 1), ('failing-dec', 2)]
         return ev
@@ -346,6 +348,12 @@ class ModeSys(HSystem):
     def apply(self, o, ev):
         t, i = ev
         obj = o['o2'] if t.endswith('2') else o['o']
+        if t == 'set-iv':
+            # the IV is a public attribute: assigning it reconfigures the object for every later request
+            o['iv'] = [iv_of('zero', self.n), iv_of('ff', self.n)][i]
+            o['o'].IV = o['iv']
+            o['exp'] = None
+            return None
         if t.startswith('failing'):
             o['exp'] = 'raises'
             o['c'].arm(i)
@@ -366,6 +374,8 @@ class ModeSys(HSystem):
         return getattr(obj, d)(self.X[i])
 
     def judge(self, ctx, hist, ev, res, o):
+        if ev[0] == 'set-iv':
+            return
         if o['exp'] == 'raises':
             ctx.eq('C05/%s/object-history/failure-of-the-block-cipher-swallowed' % self.mode, res, ('exc', 'RuntimeError'))
             return
@@ -490,18 +500,62 @@ def run_nist(ctx, which):
         ctx.eq('C05/CTR/sp800-38a-vector', ctx.attempt(lambda: Mo.CTR(AES(key), ctr).enc(ptx)), ('ok', ct))
 
 
+def pts_usercounter(tier):
+    return [(cid, kind) for cid in ('stub128', 'aes128', 'stub64', 'des') for kind in ('plain-class', 'defaultcounter-subclass')]
+
+
+def run_usercounter(ctx, pt):
+    """CTR with a counter object supplied by the caller (the documented protocol: reset() and a call per block): an
+    RFC 3686-style layout nonce | iv | counter starting at 1.  SP 800-38A with exactly those counter blocks."""
+    from crysp import mode as Mo
+    cid, kind = pt
+    n = blen(cid)
+    c = cipher(cid)
+    head = ramp(n - n // 4, 7, 3)
+
+    def block(j):
+        return head + (1 + j).to_bytes(n // 4, 'big')
+    if kind == 'plain-class':
+        class Ctr(object):
+            def reset(self):
+                self.j = 0
+
+            def __call__(self):
+                self.j += 1
+                return block(self.j - 1)
+        counter = Ctr()
+    else:
+        class Ctr(Mo.DefaultCounter):
+            def reset(self):
+                Mo.DefaultCounter.reset(self)
+                self.j = 0
+
+            def __call__(self):
+                self.j += 1
+                return block(self.j - 1)
+        counter = Ctr(n).setup(bytes(n - n // 2), bytes(n // 2))
+    o = Mo.CTR(c, counter)
+    for L in (0, 1, n - 1, n, n + 1, 3 * n + 2):
+        M = msg(L, 1)
+        ks = b''.join(c.enc(block(j)) for j in range((L + n - 1) // n))
+        ctx.eq('C05/CTR/user-supplied-counter/%s' % kind, ctx.attempt(o.enc, M), ('ok', xor(M, ks)))
+        ctx.eq('C05/CTR/user-supplied-counter/%s' % kind, ctx.attempt(o.dec, xor(M, ks)), ('ok', M))
+
+
 def subchecks():
     return [
         Sub('ecb-cbc', pts_ecbcbc, run_ecbcbc, engine='P', chunk=1,
             bound='mode in {ECB,CBC} x padding in {PKCS#7, X9.23, ISO 7816-4, zero (enc only), none (whole blocks)} x stub cipher of block size 8,16,24,64,128,256,512,1024 bits with every |M| in 0..4 blocks+1 and 3 data patterns (one whose tail equals its own pad byte), and every real cipher (9) with every |M| in 0..blocklen+1 and k blocks +{0,1,blen-1}, k<=3; IV in {zero, ramp}; enc == SP800-38A(pad_spec(M)), dec(enc(M)) == M with a fresh object, dec(spec ciphertext) == M'),
         Sub('ctr', pts_ctr, run_ctr, engine='P', chunk=1,
             bound='stub block sizes 16..1024 bits and 9 real ciphers; nonce half in {zero, ramp}; counter half in {0,1,2^h-2,2^h-1,0x0102..}; counter given as bytes and as a DefaultCounter set up by hand; |M| as above (<=3 blocks+1 for large blocks)'),
+        Sub('ctr-user-counters', pts_usercounter, run_usercounter, engine='P',
+            bound='CTR over 2 stubs, AES, DES with a caller-supplied counter object (a plain class with reset/__call__, and a DefaultCounter subclass overriding them) producing nonce|iv|counter-from-1 blocks; 6 lengths, enc and dec'),
         Sub('cbc-crafted', pts_cbc_crafted, run_cbc_crafted, engine='P',
             bound='CBC (pkcs7, none) and CTS_CBC over 2 stub and 9 real ciphers: 4-block messages in which block 0, 1 or 2 is chosen with cipher.dec so that its ciphertext block equals the IV / the previous ciphertext block / zero; 2 IVs; CTS tails 0, 1, blen-1'),
         hsub('ctr-counter-histories', ctr_systems, lambda tier: 3 if tier == 'quick' else 4,
              bound='one CTR object with a DefaultCounter; events: counter.setup with 3 (nonce,count) pairs (one 2 steps before the wrap), enc of 0 / 1 / 2 blocks+1 bytes, dec; all histories to depth 3 (thorough 4); every enc/dec equals SP 800-38A under the configuration set last'),
         hsub('mode-object-histories', mode_systems, lambda tier: 3 if tier == 'quick' else 4,
-             bound='one ECB / CBC object (no padding) and a pair of CTR objects sharing one DefaultCounter, over a stub, a stub that fails transiently on its 1st or 2nd block operation (the request must raise, the next ones must be unaffected) and AES (thorough + DES, Threefish-256): enc / dec of 3 fixed values, dec and enc of the object\'s own ciphertexts, calls on the second CTR object; all histories to depth 3 (thorough 4) vs the stateless SP 800-38A model'),
+             bound='one ECB / CBC object (no padding) and a pair of CTR objects sharing one DefaultCounter, over a stub, a stub that fails transiently on its 1st or 2nd block operation (the request must raise, the next ones must be unaffected) and AES (thorough + DES, Threefish-256): enc / dec of 3 fixed values, the IV attribute of the CBC object reassigned, dec and enc of the object\'s own ciphertexts, calls on the second CTR object; all histories to depth 3 (thorough 4) vs the stateless SP 800-38A model'),
         Sub('cts', pts_cts, run_cts, engine='P', chunk=1,
             bound='CTS_ECB / CTS_CBC over the stub ciphers (block >= 16 bits) and 9 real ciphers, every |M| >= one block as above: length, IV first, round trip with a fresh object, whole-block case equals the plain mode'),
         Sub('sp800-38a-vectors', pts_nist, run_nist, engine='P', bound='SP 800-38A F.1.1, F.2.1, F.5.1 (AES-128)'),
